@@ -75,7 +75,7 @@ def rnd_expr(rng, vars_, depth, rational=True, pool=None):
 
 
 def gen_definition(rng, *, rational=True, max_states=5, max_controls=3, max_cal=3, max_sensors=3, max_readings=4,
-                   min_sensors=0, force_control=None, force_cal=None, singular=False, int_cal=False):
+                   min_sensors=0, force_control=None, force_cal=None, singular=False, int_cal=False, force_fold=False):
     names = rng.sample(NAME_POOL, len(NAME_POOL))
     ns = rng.randint(1, max_states)
     nu = rng.randint(0, max_controls) if force_control is None else (rng.randint(1, max(1, max_controls)) if force_control else 0)
@@ -89,7 +89,7 @@ def gen_definition(rng, *, rational=True, max_states=5, max_controls=3, max_cal=
             sm[s] = add(var(s), mul(var("dt"), rnd_expr(rng, allv, 2, rational, pool)))
         else:
             sm[s] = rnd_expr(rng, allv, 3, rational, pool)
-    if not rational and rng.random() < 0.5:
+    if not rational and (force_fold or rng.random() < 0.5):
         # an angle-folding style update: a function applied to its own inverse
         s_ = rng.choice(state)
         f, g = rng.choice([("asin", "sin"), ("acos", "cos"), ("atan", "tan"), ("log", "exp")])
@@ -235,3 +235,33 @@ def mass_zva_definition():
     return {"dt": "dt", "state": ["mass", "z", "v", "a"], "control": ["thrust"], "calibration": [], "state_model": sm,
             "sensors": {"simple": {"alt": var("z")}}, "process_noise": {"thrust": 1.0}, "sensor_noise": {"simple": {"alt": 1.0}},
             "calibration_map": {}, "rational": True}
+
+
+def gen_nested_definition(rng, depth=3, with_sensor=True):
+    """deeply shared sub-expressions (the CSE feature's target): a chain e1 = f(states), e2 = g(e1, e1), e3 = h(e2, e2) ...
+    where only the deepest levels appear in the outputs, so that middle temporaries are referenced only through
+    other temporaries"""
+    names = rng.sample(NAME_POOL, len(NAME_POOL))
+    vx, vy, px, py = names[:4]
+    ux, uy = names[4:6]
+    c1, c2 = names[6:8]
+    lvl = add(add(powi(var(vx), 2), powi(var(vy), 2)), num(1))
+    for k in range(depth - 1):
+        a, b = rng.choice([(c1, c2), (c2, c1)])
+        lvl = mul(add(var(a), mul(var(b), lvl)), lvl) if k % 2 == 0 else add(mul(lvl, lvl), mul(var(a), lvl))
+    den = powi(add(num(1), powi(lvl, 2)), -1)
+    ax = add(mul(mul(num(-1), mul(lvl, var(vx))), den), var(ux))
+    ay = add(mul(mul(num(-1), mul(lvl, var(vy))), den), var(uy))
+    half_dt2 = mul(num(1, 2), powi(var("dt"), 2))
+    sm = {vx: add(var(vx), mul(var("dt"), ax)), vy: add(var(vy), mul(var("dt"), ay)),
+          px: add(add(var(px), mul(var("dt"), var(vx))), mul(half_dt2, ax)),
+          py: add(add(var(py), mul(var("dt"), var(vy))), mul(half_dt2, ay))}
+    sensors = {}
+    if with_sensor:
+        k = rng.choice(SENSOR_POOL)
+        r1, r2 = rng.sample(READING_POOL, 2)
+        sp = add(add(powi(var(vx), 2), powi(var(vy), 2)), num(1))
+        sensors[k] = {r1: mul(mul(sp, sp), var(c1)), r2: add(mul(sp, var(px)), mul(mul(sp, sp), var(py)))}
+    return {"dt": "dt", "state": [vx, vy, px, py], "control": [ux, uy], "calibration": [c1, c2], "state_model": sm, "sensors": sensors,
+            "process_noise": {ux: 0.25, uy: 0.5}, "sensor_noise": {k: {r: 0.5 for r in rd} for k, rd in sensors.items()},
+            "calibration_map": {c1: rng.choice([0.25, 0.5, -0.125]), c2: rng.choice([0.125, 0.0625])}, "rational": True}
